@@ -115,6 +115,7 @@ class Polarization(BaseState):
         expanded to state_vector and if it is state_vector
         then it gets expanded to density matrix
         """
+        from photon_weave.state.envelope import Envelope
         from photon_weave.state.composite_envelope import CompositeEnvelope
 
         # If the state is in composite envelope expand the product space there
@@ -163,6 +164,7 @@ class Polarization(BaseState):
         tol: float
             Tolerance when comparing matrices
         """
+        from photon_weave.state.composite_envelope import CompositeEnvelope
         from photon_weave.state.envelope import Envelope
 
         # If state was measured, then do nothing
@@ -281,6 +283,7 @@ class Polarization(BaseState):
         Union[int,None]
             Measurement Outcome
         """
+        from photon_weave.state.envelope import Envelope
         from photon_weave.state.composite_envelope import CompositeEnvelope
 
         # If the state is in the envelope, measure there
